@@ -1311,3 +1311,16 @@ def classify(loop):
                 continue
         out[v] = Fold("OTHER", init=init, term=u)
     return out
+
+
+def strip_perm(t):
+    """The sequence underlying a wrapper that only permutes / copies it (reversed, sorted, list, tuple, x[::-1]): the
+    same elements are visited, in another order.  Returns (inner, whole) - whole False for any other slice."""
+    while True:
+        if t[0] == "call" and t[1] in ("reversed", "sorted", "list", "tuple") and len(t[2]) == 1:
+            t = t[2][0]
+            continue
+        if t[0] == "slice" and t[2] == C(None) and t[3] == C(None) and t[4] in (C(-1), C(1), C(None)):
+            t = t[1]
+            continue
+        return t
